@@ -57,7 +57,10 @@ def gen_scenarios(seed, tier):
             if which == "exception_base":
                 pp["exception_base"] = []
             elif which == "exponent":
+                # a SHRINKING back-off whose first delay is already at the cap: delays 3, 0, 0, ... (not the cap for ever)
                 pp["exponent"] = 0
+                if rng.random() < 0.6:
+                    pp["sleep"], pp["max_sleep"], pp["max_attempts"] = 3.0, 3.0, rng.choice([3, 4])
             else:
                 pp[which] = 0
         if i % 3 == 0:
